@@ -41,6 +41,17 @@ def gen_cases(ctx):
         for vals in ([*nas, *asc], [*nas, *nas, *asc], [*asc, *nas], asc):
             for op, arg in (("sort", 1), ("sort", -1), ("rank", "ordinal"), ("unique", None)):
                 cases.append({"kind": kind, "vals": list(vals), "op": op, "arg": arg})
+    # vectors in DESCENDING raw order with repeats, of every kind (a Boolean one too: True first): unique keeps the order of first
+    # occurrence, rank and sort are judged on the same vectors
+    for kind in ("bool", "int", "float", "str", "date", "datetime", "timedelta", "objint"):
+        nonna = [v for v in vecgen.POOLS[kind] if not vecgen.is_na_val(kind, v)]
+        try:
+            desc = sorted(nonna, key=lambda v: vecgen.sort_key(kind, vecgen.canon_vals(kind, [v])[0]), reverse=True)[:3]
+        except TypeError:
+            continue
+        for vals in ([*desc, *desc], [*desc, *desc[::-1]], [desc[0], desc[-1], desc[0]]):
+            for op, arg in (("unique", None), ("sort", 1), ("sort", -1), ("rank", "min"), ("rank", "max"), ("rank", "ordinal")):
+                cases.append({"kind": kind, "vals": list(vals), "op": op, "arg": arg})
     corpus = [
         {"kind": "float", "vals": [1.0, 1.0, "nan"], "op": "rank", "arg": "min"},
         {"kind": "float", "vals": ["nan", "nan"], "op": "rank", "arg": "min"},
